@@ -31,6 +31,9 @@ t("defer-args-then-store", "r = []\nfunc() {\n defer (func(a, b) { r += [[a, b]]
 t("call-arg-go-stringer", "gs(", ")"); t("call-arg-go-error", "ge(", ")"); t("call-arg-go-stringer-variadic", "gsv(1, ", ")")
 t("make-type", "make(type TT, ", ")\nmake(TT)"); t("make-type-kind", "make(type TT, ", ")\nx = make(TT)\ng1(x)"); t("assign-then-store", "q = ", "\nbump()\nq"); t("assign-module-then-store", "mo.x = ", "\nbump()\nmo.x")
 t("unpack-then-store", "mo.x, q2 = [", ", 5]\nbump()\n[mo.x, q2]")
+# what an assignment binds is a copy or a reference by the KIND of the value, wherever it came from (a module is copied; a later store through one name does not show through the other)
+t("assign-copy-then-member-store", "q = ", "\nq.x = 2\n[vmo.x, q.x]"); t("var-copy-then-member-store", "var q = ", "\nq.x = 2\n[vmo.x, q.x]"); t("multi-copy-then-member-store", "q, q2 = ", ", 1\nq.x = 2\n[vmo.x, q.x]")
+t("assign-then-field-store", "q = ", "\nq.A = 77\n[vmk.A, q.A]"); t("member-ptr-method-twice", "q = ", "\n[q.Ptr(), q.Ptr(), q.Val()]"); t("member-field-then-method", "q = ", "\n[q.A, q.Ptr()]")
 t("plus-str-l", "", ' + "s"'); t("plus-str-r", '"s" + ', "")
 t("plus-list-l", "", " + [9]"); t("plus-list-r", "[9] + ", "")
 t("str-mul", '"ab" * ', ""); t("mul-str", "", " * 2")
@@ -62,9 +65,13 @@ t("list-elem", "[", ", 2]"); t("map-value", '{"a": ', "}"); t("map-key", "{", ":
 # a string is a value: element assignment rewrites the VARIABLE, so the target must be assignable; through a call result or a
 # conditional there is no variable to rewrite -- not a provenance effect on a value but the absence of an lvalue
 # a nil slice / map grows by rewriting the variable that holds it, likewise
+# vmk (a struct made by the script: ADDRESSABLE where it is bound) is judged in the templates about members, methods and what an assignment binds; that a struct is
+# not a value in this interpreter is recorded (StructElementAlias, StructFieldStoreUnaddressable) and shows in every template that takes an address or stores through one
+VMK_TEMPLATES = {"member", "member-field", "member-method", "member-ptr-method", "member-ptr-method-twice", "member-field-then-method", "assign-then-field-store", "assign-copy-then-member-store", "var-copy-then-member-store",
+                 "multi-copy-then-member-store", "call-arg-go-iface", "typeof-like", "list-elem", "map-value", "return-value", "assign-rhs", "eq-nil", "len", "switch-subject", "if-cond", "nilco-left", "call-arg-script"}
 EXCLUDE = {("assign-index-base", "vs"), ("assign-index-base", "vns"), ("assign-index-base", "vnm"), ("assign-member", "vnm")}
 
-VARS = ["vi", "vz", "vf", "vs", "vb", "vn", "vl", "vm", "vp", "vc", "vfn", "vg", "vst", "vsp", "vtl", "vmo", "vns", "vnm", "vnp", "vdur", "verr"]
+VARS = ["vi", "vz", "vf", "vs", "vb", "vn", "vl", "vm", "vp", "vc", "vfn", "vg", "vst", "vsp", "vtl", "vmo", "vns", "vnm", "vnp", "vdur", "verr", "vmk"]
 
 
 def run(ctx):
@@ -94,7 +101,7 @@ def run(ctx):
         vlib.tlc_ok(ctx, r, "MC_AnkoProvenance")
         # (x ?? nil) is the identity on every value except a nil of a concrete type, which it turns into the plain nil: not a hop for those
         # &x of an element of a TYPED list is a pointer of that element type: storing an int64 through it is a typed store (C10), not a provenance effect
-        obs = [o for o in vlib.read_ndjson(op) if (o["t"], o["v"]) not in EXCLUDE and not (o["v"] in ("vns", "vnm", "vnp") and "nilco" in o["chain"])
+        obs = [o for o in vlib.read_ndjson(op) if (o["t"], o["v"]) not in EXCLUDE and (o["v"] != "vmk" or o["t"] in VMK_TEMPLATES) and not (o["v"] in ("vns", "vnm", "vnp") and "nilco" in o["chain"])
                and not (o["t"] == "addr-then-store" and o["chain"] and o["chain"][0] == "ntelem")]
         slim = os.path.join(ctx.work, "prov_obs.ndjson")
         vlib.write_ndjson(slim, [{"got": o["got"], "base": o["base"]} for o in obs])
@@ -113,14 +120,16 @@ def run(ctx):
             o = obs[ln - 1]
             key = (o["t"], o["v"], o["chain"][-1] if o["chain"] else "", o["got"] == "panic")
             k2 = (o["t"], o["chain"][-1] if o["chain"] else "")
-            known = o["v"] == "vst" and o["chain"] and o["chain"][0] == "ntelem" and ("-then-" in o["t"] and o["t"].endswith("store"))
-            if known:
+            known = o["v"] in ("vst", "vmk") and o["chain"] and o["chain"][0] == "ntelem" and ("-then-" in o["t"] and o["t"].endswith("store"))
+            # second open finding: a field store into a struct that came out of an interface-typed place fails (exactly: this template, the made struct, outcome error)
+            fstore = o["t"] == "assign-then-field-store" and o["v"] == "vmk" and o["got"] == "error" and not known
+            if known or fstore:
                 k2 = ("known",) + k2
             if k2 in reported or sum(1 for q in reported if q[0] != "known") >= 60:      # (the cap counts new violations only: known ones must not use it up)
                 continue
             reported.add(k2)
             vlib.violation(ctx, "template %s with %s through %s: outcome %s, but %s with the bare variable\n%s" % (o["t"], o["v"], "/".join(o["chain"]), o["got"][:120], o["base"][:120], o["src"]),
-                           dict({"kind": "prov", "obs": o}, **({"finding_key": "prov:struct-typed-elem-alias"} if o["v"] == "vst" and o["chain"] and o["chain"][0] == "ntelem" and ("-then-" in o["t"] and o["t"].endswith("store")) else {})))
+                           dict({"kind": "prov", "obs": o}, **({"finding_key": "prov:struct-typed-elem-alias"} if known else ({"finding_key": "prov:struct-field-store-unaddressable"} if fstore else {}))))
     ctx.cov["templates"] = len(T)
     ctx.cov["values"] = len(VARS)
     if not ctx.violations:
